@@ -139,6 +139,11 @@ def run(ctx):
         rv = add.canon(add.ch(r)[0], subst=False)
         if rv in (x, y):
             ctx.check(r3, all(not paths.may_reach(add, n, lambda e, r=r: e == r) for n in firstsub), key(add, "zero-first:" + rv), add.where(r), "log-zero short circuit is taken after the difference was computed")
+    # the table path is only reached with both arguments above log-zero
+    for n_ in firstsub:
+        for (a_, nm) in ((x, "first"), (y, "second")):
+            g_ = paths.guarded(add, n_, lambda f, c, pol, a_=a_: paths.rel(f, c, pol, subst=False) == ("%s->zero" % lm, "<", a_))
+            ctx.check(r3, g_, key(add, "zero-before-table:%s" % nm), add.where(n_), "the difference is computed without a dominating test that the %s argument is above log-zero: zero + zero (and anything within the table's length of zero) is then looked up in the table instead of returning the other argument" % nm)
     # branches
     pairs = {}
     for s in paths.stores(add):
